@@ -187,9 +187,12 @@ class FormulaTransformer(m.MatcherDecoratableTransformer):
             scope = self.node_to_scope.get(n, None)
 
         # A comprehension inlined by PEP 709 has no symbol table.
-        # Its names are looked up in the table of the enclosing scope.
+        # Its variables are local to it. The other names are looked up
+        # in the table of the enclosing scope.
         n_to_s = self.name_to_symbol[self.scopes.index(scope)]
         while n_to_s is None:
+            if node.value in scope.assignments:
+                return False
             scope = scope.parent
             n_to_s = self.name_to_symbol[self.scopes.index(scope)]
 
